@@ -11,7 +11,7 @@ package sscen
 // A script is named by a compact encoding (also the scenario name, so that
 // VERIF_SCENARIO=<name> re-runs exactly it):
 //
-//	G:<p|c>:<n|f|m>:<3 action letters of poll 1>:<3 action letters of poll 2>
+//	G:<p|c>:<n|f|m>:<3 action letters of poll 1>:<3 action letters of poll 2>[:<3 action letters of poll 3>:<0|t|l>]
 //
 //	p plain partition, c compacted partition (offsets 1,2 are holes in a batch)
 //	n no FlushAcks (the acks ride on the next ShareFetch / the ack timer)
@@ -19,6 +19,11 @@ package sscen
 //	m MarkAcks(AckAccept) without records, then FlushAcks, after each poll
 //	actions: - nothing   a accept   r release   j reject   n renew
 //	         A renew then accept   J renew then reject   x accept then release (ignored)
+//	idle before Close: 0 none, t 3 s (longer than the 1 s ack timer and the 500 ms
+//	fetch long-poll: pending acks, renews included, must ride on a ShareFetch
+//	or a standalone ShareAcknowledge), l 22 s (longer than the 15 s record lock
+//	plus kfake's 5 s sweep). The suffix is omitted when poll 3 gets no action
+//	and there is no idle period.
 //
 // The whole family is ONE exploration: decision point 0 of every execution is
 // "which script" with all scripts as zero-cost alternatives (so the explorer's
@@ -47,6 +52,28 @@ type genScript struct {
 	compacted bool
 	flush     byte // n f m
 	p1, p2    string
+	p3        string // "" = "---"
+	idle      byte   // 0 (also the zero value) t l
+}
+
+func (g genScript) norm() genScript {
+	if g.p3 == "" {
+		g.p3 = "---"
+	}
+	if g.idle == 0 {
+		g.idle = '0'
+	}
+	return g
+}
+
+func (g genScript) idleFor() time.Duration {
+	switch g.norm().idle {
+	case 't':
+		return 3 * time.Second
+	case 'l':
+		return 22 * time.Second
+	}
+	return 0
 }
 
 func (g genScript) name() string {
@@ -54,23 +81,30 @@ func (g genScript) name() string {
 	if g.compacted {
 		part = "c"
 	}
-	return fmt.Sprintf("G:%s:%c:%s:%s", part, g.flush, g.p1, g.p2)
+	g = g.norm()
+	if g.p3 == "---" && g.idle == '0' {
+		return fmt.Sprintf("G:%s:%c:%s:%s", part, g.flush, g.p1, g.p2)
+	}
+	return fmt.Sprintf("G:%s:%c:%s:%s:%s:%c", part, g.flush, g.p1, g.p2, g.p3, g.idle)
 }
 
 func parseGen(name string) (genScript, bool) {
 	f := strings.Split(name, ":")
-	if len(f) != 5 || f[0] != "G" || len(f[1]) != 1 || len(f[2]) != 1 || len(f[3]) != 3 || len(f[4]) != 3 {
+	if len(f) == 5 {
+		f = append(f, "---", "0")
+	}
+	if len(f) != 7 || f[0] != "G" || len(f[1]) != 1 || len(f[2]) != 1 || len(f[3]) != 3 || len(f[4]) != 3 || len(f[5]) != 3 || len(f[6]) != 1 {
 		return genScript{}, false
 	}
-	if !strings.Contains("pc", f[1]) || !strings.Contains("nfm", f[2]) {
+	if !strings.Contains("pc", f[1]) || !strings.Contains("nfm", f[2]) || !strings.Contains("0tl", f[6]) {
 		return genScript{}, false
 	}
-	for _, c := range f[3] + f[4] {
+	for _, c := range f[3] + f[4] + f[5] {
 		if !strings.ContainsRune(genActions, c) {
 			return genScript{}, false
 		}
 	}
-	return genScript{compacted: f[1] == "c", flush: f[2][0], p1: f[3], p2: f[4]}, true
+	return genScript{compacted: f[1] == "c", flush: f[2][0], p1: f[3], p2: f[4], p3: f[5], idle: f[6][0]}, true
 }
 
 // IsGenName reports whether a scenario name belongs to the generated family.
@@ -143,23 +177,52 @@ func GenNames() ([]string, []GenFamily) {
 		}
 		for _, fl := range []byte("nfm") {
 			fp := GenFamily{Name: fmt.Sprintf("%s/flush=%c/pairs", part, fl)}
-			pairs(func(p1, p2 string) { add(&fp, genScript{compacted, fl, p1, p2}) })
+			pairs(func(p1, p2 string) { add(&fp, genScript{compacted: compacted, flush: fl, p1: p1, p2: p2}) })
 			fams = append(fams, fp)
+			// third poll and idle period before Close: the same action on all of
+			// poll 3's records, every idle period (polls 1 and 2 fixed)
+			ft := GenFamily{Name: fmt.Sprintf("%s/flush=%c/poll3-uniform-x-idle", part, fl)}
+			for _, idle := range []byte("0tl") {
+				for _, a := range genActions {
+					add(&ft, genScript{compacted, fl, genFixedP1, genFixedP2, strings.Repeat(string(a), 3), idle})
+				}
+			}
+			fams = append(fams, ft)
+			if !compacted {
+				// one action on one record of poll 3, every idle period, nothing else acknowledged
+				f3 := GenFamily{Name: fmt.Sprintf("%s/flush=%c/poll3-single-x-idle", part, fl)}
+				for _, idle := range []byte("0tl") {
+					for i := 0; i < 3; i++ {
+						for _, a := range genActions {
+							p3 := []byte("---")
+							p3[i] = byte(a)
+							add(&f3, genScript{compacted, fl, "---", "---", string(p3), idle})
+						}
+					}
+				}
+				fams = append(fams, f3)
+				if fl != 'm' {
+					// every pair (action on record i of poll 2, action on record j of poll 3), idle t
+					f23 := GenFamily{Name: fmt.Sprintf("%s/flush=%c/pairs-poll2-poll3-idle=t", part, fl)}
+					pairs(func(p2, p3 string) { add(&f23, genScript{compacted, fl, "---", p2, p3, 't'}) })
+					fams = append(fams, f23)
+				}
+			}
 			if compacted {
 				fd := GenFamily{Name: fmt.Sprintf("%s/flush=%c/diagonal", part, fl)}
 				for _, a := range genActions {
 					for _, b := range genActions {
-						add(&fd, genScript{compacted, fl, strings.Repeat(string(a), 3), strings.Repeat(string(b), 3)})
+						add(&fd, genScript{compacted: compacted, flush: fl, p1: strings.Repeat(string(a), 3), p2: strings.Repeat(string(b), 3)})
 					}
 				}
 				fams = append(fams, fd)
 				continue
 			}
 			f1 := GenFamily{Name: fmt.Sprintf("%s/flush=%c/all-of-poll1", part, fl)}
-			all3(func(s string) { add(&f1, genScript{compacted, fl, s, genFixedP2}) })
+			all3(func(s string) { add(&f1, genScript{compacted: compacted, flush: fl, p1: s, p2: genFixedP2}) })
 			fams = append(fams, f1)
 			f2 := GenFamily{Name: fmt.Sprintf("%s/flush=%c/all-of-poll2", part, fl)}
-			all3(func(s string) { add(&f2, genScript{compacted, fl, genFixedP1, s}) })
+			all3(func(s string) { add(&f2, genScript{compacted: compacted, flush: fl, p1: genFixedP1, p2: s}) })
 			fams = append(fams, f2)
 		}
 	}
@@ -182,13 +245,17 @@ func GenNames() ([]string, []GenFamily) {
 
 // GenDeviate reports whether single schedule deviations are explored around a
 // script in the thorough tier: the same action on all three records of one
-// poll with the fixed other poll, plain partition, every flush mode (48).
+// poll with the fixed other poll, plain partition, every flush mode (48), plus
+// the uniform actions on poll 3 with the 3 s idle period and no flush (8).
 func GenDeviate(name string) bool {
 	g, ok := parseGen(name)
 	if !ok || g.compacted {
 		return false
 	}
 	uniform := func(s string) bool { return s[0] == s[1] && s[1] == s[2] }
+	if g.p3 != "---" || g.idle != '0' {
+		return g.flush == 'n' && g.idle == 't' && uniform(g.p3) && g.p1 == genFixedP1 && g.p2 == genFixedP2
+	}
 	return (uniform(g.p1) && g.p2 == genFixedP2) || (uniform(g.p2) && g.p1 == genFixedP1)
 }
 
@@ -215,6 +282,7 @@ func (a *app) act(p *polled, action byte) {
 }
 
 func genScenario(g genScript) *netctl.Scenario {
+	g = g.norm()
 	v := variant{name: g.name(), compacted: g.compacted, pollMax: 3}
 	return &netctl.Scenario{
 		Name:    v.name,
@@ -261,11 +329,13 @@ func genScenario(g genScript) *netctl.Scenario {
 			x.Thread("A", func(t *netctl.Thread) {
 				round(t, 1, g.p1, 40*time.Second)
 				round(t, 2, g.p2, 10*time.Second)
-				t.Step("poll3") // what poll 2 left unacknowledged is accepted here
-				ctx, cancel := context.WithTimeout(context.Background(), 3*time.Second)
-				a.poll(ctx, 3)
-				cancel()
-				t.Step("close") // what poll 3 returned is released
+				// poll 3: what poll 2 left unacknowledged is accepted here
+				round(t, 3, g.p3, 3*time.Second)
+				if d := g.idleFor(); d > 0 {
+					t.Step("idle") // the application does nothing; frames and timers go on
+					time.Sleep(d)
+				}
+				t.Step("close") // what is still unacknowledged is released
 				a.close()
 			})
 			x.Data = &run{st: st, c: c, v: v}
